@@ -3,14 +3,16 @@ from . import common as C
 
 MANIFEST = dict(
    technique="Lean 4 proof (toJS transcribed from jsonschema/to.go is a validity-preserving homomorphism from the gozod schema fragment to Draft 2020-12 keywords, on an explicit decidable Representable fragment) + differential correspondence: model document = real ToJSONSchema output, model verdicts = real Parse verdicts, and an independent validator (kaptinlin/jsonschema) judging the real document on the same instances",
-   text="c07_equiv_partial / c07_sound / c07_complete: for every Representable schema and every in-scope JSON instance, the instance validates against the emitted document iff Parse accepts it (strip-mode objects: the returned value validates / a validating input is accepted); c07_wellformed: the emitted document is well formed and contains no dangling reference. Outside Representable each excluded class has a witness theorem and a replayed concrete instance (known findings).",
-   note="PARTIAL: holds on the Representable fragment only (see notes/C07.md for the excluded classes, each a demonstrated defect of the pinned tree). Lazy/$ref, discriminated unions, formats/regex, Default/Prefault, Map, Set, Struct are not modelled. Instances: ASCII strings, numbers that are multiples of 1/4 below 2^51. Trusted: Lean kernel; the hand-written jsValid (cross-checked on every generated case against kaptinlin/jsonschema on the real document); the Go harness, schema-directed embedding and comparer. The model is validated on generated cases, not for all inputs.",
+   text="c07_equiv_partial / c07_sound / c07_complete: for every Representable schema and every in-scope JSON instance, the instance validates against the emitted document iff Parse accepts it (strip-mode objects: the returned value validates / a validating input is accepted); c07_wellformed: the emitted document is well formed and contains no dangling reference; c07_history_equiv / _sound / _complete / _stable: the same holds for the document of every call of every sequence of ToJSONSchema calls (any option sets, any schemas converted before), and two calls on the same (options, schema) give the same document. Outside Representable each excluded class has a witness theorem and a replayed concrete instance (known findings).",
+   note="PARTIAL: holds on the Representable fragment only (see notes/C07.md for the excluded classes, each a demonstrated defect of the pinned tree). Lazy, discriminated unions, string formats, Default/Prefault, Map, Set, Struct, File, Pipe/Transform are not modelled; user regexes come from a five-entry table with hand-written meanings; registry IDs and reused:"ref" are compared after inlining the emitted $ref nodes (the raw document is what the independent validator judges). Instances: ASCII strings, numbers that are multiples of 1/4 below 2^51. Trusted: Lean kernel; the hand-written jsValid (cross-checked on every generated case against kaptinlin/jsonschema on the real document); the Go harness, schema-directed embedding and comparer. The model is validated on generated cases, not for all inputs.",
    design="DESIGN.md §5 C07")
 
 MODULES = ["Gozod.Proofs.C07"]
 THEOREMS = [
     "Gozod.C07.c07_equiv_partial", "Gozod.C07.c07_pres", "Gozod.C07.c07_sound", "Gozod.C07.c07_complete",
     "Gozod.C07.c07_wellformed", "Gozod.C07.eqv", "Gozod.C07.pres",
+    "Gozod.C07.runHistory_get", "Gozod.C07.c07_history_equiv", "Gozod.C07.c07_history_sound", "Gozod.C07.c07_history_complete",
+    "Gozod.C07.c07_history_stable",
     "Gozod.C07.witness_bytes_vs_codepoints", "Gozod.C07.witness_trim_before_min", "Gozod.C07.witness_optional_null",
     "Gozod.C07.witness_partial_required", "Gozod.C07.witness_array_single_item", "Gozod.C07.witness_rest_without_min_items",
     "Gozod.C07.witness_array_length_keyword", "Gozod.C07.witness_record_enum_exhaustive", "Gozod.C07.witness_union_nil",
@@ -29,15 +31,30 @@ def verdict_ok(impl):
     if vi not in ("0", "1") or p not in ("0", "1"): return "harness"
     return ""
 
+# classes the Lean model knowingly does not mirror (notes/C07.md): there a model≠impl case whose implementation
+# observation satisfies the property is filed under the class's listed finding instead of being reported as drift
+UNMIRRORED = ("intersection-strict-objects", "intersection-strict-nested")
+
 def make_key(known_keys):
     def key(op, impl, M, S):
         kind = C.op_body(op).split(" ")[1]
-        if kind == "doc":
+        if kind in ("doc", "hdoc"):
+            if S is not None and S.startswith("document-of-first-conversion:"):
+                return "doc:unstable"      # a later conversion of the same instance / options gave another document
             return "doc:" + (impl.split(" ")[0] if impl else "empty")
         d = verdict_ok(impl) or "model"
-        why = [w for w in C.op_comment(op).replace("why=", "").split(",") if w]
+        why = [w for w in C.op_comment(op).split("#why=")[-1].replace("why=", "").split(",") if w]
         if not why: return d + ":none"
+        if d == "model":
+            for w in why:
+                if w in UNMIRRORED:
+                    for x in ("sound:" + w, "complete:" + w):
+                        if any(C.key_matches(k, x) for k in known_keys): return x
         ks = [d + ":" + w for w in why]
+        if "( xor " in C.op_body(op):
+            # inside Xor a member document that is wrong in ONE direction flips the oneOf count, i.e. shows up in
+            # the other direction too; such mirrored classes are listed with an @xor suffix (only matched here)
+            ks += [d + ":" + w + "@xor" for w in why]
         # several excluded classes meet in one schema: file the case under the first class that is
         # a listed finding for this direction; if none is, the combination is reported as new
         for x in ks:
@@ -46,7 +63,9 @@ def make_key(known_keys):
     return key
 
 def describe(op):
-    return ("harness/cmd/c07: schema S built through the public gozod API (build.go), gozod.ToJSONSchema(S) serialised; "
+    return ("harness/cmd/c07 (hdoc/hinst: the K-th ToJSONSchema call on ONE live instance, with the option set in the op, after the calls listed "
+            "in the comment and the calls of the run before it — re-run the harness with the same seed to replay the whole history): "
+            "schema S built through the public gozod API (build.go), gozod.ToJSONSchema(S) serialised; "
             "instance J embedded schema-directedly (embed) and given to S.ParseAny; kaptinlin/jsonschema compiled from the emitted "
             "document validates J and the returned value. Grammar of S/J: harness/cmd/c07/ast.go")
 
@@ -100,11 +119,29 @@ def run(res):
         return res.finish()
     ops, impl, model, stats = data
     ops2, model2 = [], []
+    # the document is a function of (schema instance, option set): the first conversion's document is the
+    # reference for every later conversion of that instance under those options (judged on the implementation alone)
+    DEFAULT = "io=-,unrep=-,reused=-,cycles=-,target=-,meta=global"
+    first_doc = {}
+    nhist = 0
     for o, im, m in zip(ops, impl, model):
         mm, _, why = m.partition("\t")
-        kind = o.split(" ")[1] if " " in o else ""
-        if kind == "doc":
-            spec = im if im.startswith("1 ") else "document-must-be-wellformed"
+        body = C.op_body(o)
+        kind = body.split(" ")[1] if " " in body else ""
+        if kind in ("doc", "hdoc"):
+            if kind == "doc":
+                ref_key = (DEFAULT, body.split(" ", 2)[2])
+            else:
+                _, _, k, opts, text = body.split(" ", 4)
+                ref_key = (opts.rsplit(",dup=", 1)[0], text)
+                nhist += 1
+            ref = first_doc.setdefault(ref_key, im)
+            if im != ref:
+                spec = "document-of-first-conversion:" + ref
+            elif im.startswith("1 ") or im == "error":
+                spec = im          # a conversion error puts the call outside the property
+            else:
+                spec = "document-must-be-wellformed"
         else:
             bad = verdict_ok(im)
             spec = im if bad == "" else "property-violated:%s" % bad
@@ -113,13 +150,21 @@ def run(res):
     known_open, _ = C.load_known("C07")
     C.decide(res, "C07", (ops2, impl, model2, stats), make_key([k["key"] for k in known_open]),
              "C07/toJS+accepts+jsValid", describe=describe)
-    res.coverage["rule"] = ("structured generator: schemas of depth <= 3 over string(min/max/len/startsWith/endsWith/includes/lower/upper/trim), "
+    res.coverage["rule"] = ("conversion histories: every schema is built ONCE (one AST node = one live instance; ~25 % of the schemas embed an earlier "
+        "top-level schema's live instance as a child, ~7 % use one instance under two names) and converted >= 3 times: right after construction, "
+        "again at once (30 %), after its parent (children), after the conversions of up to 700 other schemas, under random option sets "
+        "(IO, Unrepresentable, Reused, Cycles, Target, private/global Metadata registry); every resulting document is compiled by the independent "
+        "validator and judged on the instance set (whole set for every new document text, a rotating sample otherwise), Parse being called on the "
+        "live converted instance; the document of every later conversion must equal the first one's for the same options. "
+        "structured generator: schemas of depth <= 3 over string(min/max/len/startsWith/endsWith/includes/lower/upper/trim/regex from a 5-entry table), registry IDs (Meta{ID}) on any non-integer node, "
         "10 integer kinds and float64 with gt/gte/lt/lte/multipleOf, bool, nil, any, never, enum, literal, Optional/Nilable, object (3 modes, catch-all, "
         "Partial, size checks), slice, array, tuple (optional items, rest), record (string / enum keys), union, xor, intersection; corpus of the DESIGN §5 classes first. "
         "Per schema: the emitted document (1 case) and up to 60 instances at / one below / one above every constant in the schema, missing / extra / null members, "
         "wrong kinds, non-ASCII strings. impl observation = (Parse verdict, independent validator on returned value, independent validator on input). "
         "distinct = distinct op lines; histogram = node kinds, checks and verdict triples.")
     res.coverage["parse_panics_counted_as_reject"] = stats.get("parse_panics", 0)
+    res.coverage["conversions"] = stats.get("conversions", 0)
+    res.coverage["later_conversions_checked_against_first_document"] = nhist
     if res.tier == "thorough":
         metaschema_check(res)
     res.assumptions += [
